@@ -1,7 +1,8 @@
 From Coq Require Import List Arith NArith Bool.
 From V.gen Require ConnExits.
 From V.Mgr Require Import Model Caps.
-From V.C07 Require Import Model Proofs Compose.
+From V.Ts Require Import Report ReportProofs.
+From V.C07 Require Import Model Proofs Compose Block BlockProofs.
 Import ListNotations.
 Open Scope N_scope.
 From V.C07 Require Import Properties.
@@ -74,13 +75,15 @@ Check (C07_run_shape :
     exists pre, ns = pre ++ closed_part (alive t') (mgr_up t') /\
                 forall x, In x pre -> is_sub_note x = true))).
 Check (C07_lifecycle :
-  forall al mup mask es t' ns,
-  all_alive al = true -> conn_run al mup mask es = (Some t', ns) -> gone t' <> None ->
-  (exists rest, ns = map NEst (seq 0 (length al)) ++ rest /\ (forall i, cnt (is_est_of i) rest = 0%nat)) /\
-  (forall i, (i < length al)%nat -> cnt (is_est_of i) ns = 1%nat) /\
+  forall al mup es t' ns,
+  conn_run al mup es = (Some t', ns) -> gone t' <> None ->
+  (exists rest, ns = map NEst (alive_idx 0 al) ++ rest /\ (forall i, cnt (is_est_of i) rest = 0%nat)) /\
+  (forall i, cnt (is_est_of i) ns = if nth i al false then 1%nat else 0%nat) /\
   cnt is_mgr_closed ns = (if mgr_up t' then 1%nat else 0%nat) /\
   (forall i, cnt (is_closed_of i) ns = if nth i (alive t') false then 1%nat else 0%nat) /\
-  (forall i, nth i (alive t') false = true -> (i < length al)%nat)).
+  (forall i, nth i (alive t') false = true -> nth i al false = true)).
+Check (C07_connection_always_started :
+  forall al mup es, exists t' ns, conn_run al mup es = (Some t', ns)).
 Check (C07_exit_only_on_cause :
   forall t e, gone t = None -> gone (fst (cstep t e)) <> None -> is_cause e = true).
 Check (C07_cause_exits :
@@ -92,18 +95,13 @@ Check (C07_live_protocol_served :
 Check (C07_dead_protocol_ignored :
   forall t i ob, gone t = None -> nth i (alive t) false = false ->
   cstep t (ENeg (NegOk i ob)) = (t, []) /\ cstep t (ENeg (NegFail i)) = (t, [])).
-Check (C07_accept_all_alive :
-  forall al mup mask, all_alive al = true ->
-  accept al mup mask = (Some (mkTask al mup None), map NEst (seq 0 (length al)))).
-Check (C07_accept_dead_refuted :
-  exists al mask, existsb (fun b => b) al = true /\
-  fst (accept al true mask) = None /\
-  In (NEst 0) (snd (accept al true mask)) /\ ~ In (NEst 2) (snd (accept al true mask)) /\
-  cnt is_close_note (snd (accept al true mask)) = 0%nat).
-Check (C07_accept_dead_class :
-  forall al mup mask, all_alive al = false ->
-  fst (accept al mup mask) = None /\
-  forall x, In x (snd (accept al mup mask)) -> exists i, x = NEst i /\ nth i al false = true).
+Check (C07_accept_serves_live :
+  forall al mup, accept al mup = (Some (mkTask al mup None), map NEst (alive_idx 0 al))).
+Check (C07_accept_each_once :
+  forall al i, cnt (is_est_of i) (map NEst (alive_idx 0 al)) = if nth i al false then 1%nat else 0%nat).
+Check (C07_unfixed_accept_refuted :
+  fst (accept_unfixed [true; false; true] true [0%nat]) = None /\
+  accept [true; false; true] true = (Some (mkTask [true; false; true] true None), [NEst 0; NEst 2])).
 Check (C07_unfixed_loop_refuted :
   let t := mkTask [true; false] true None in
   let r := cstep_unfixed t (ENeg (NegOk 1 false)) in
@@ -141,5 +139,42 @@ Check (C07_node_feeds_manager :
   let fed := snd (snd r) in
   let g := arun L (nd_mgr nd) l ann fed in
   env_trace L (nd_mgr nd) l fed /\ nd_mgr (fst r) = fst g /\ NodeInv L (fst r) (fst (snd g)) (snd (snd g))).
+Check (C07_node_no_rollback :
+  forall L es nd c ok, In (AcceptDone c ok) (snd (snd (node_run L nd es))) -> ok = true).
 Check (C07_node_init :
   forall L n, NodeInv L (node_init n) [] []).
+Check (C07_block_invariant :
+  forall me n cap es, Binv me (fst (brun (binit n cap) es))).
+Check (C07_block_manager_told_once :
+  forall me es s, (cnt_out (is_mgr me) (snd (brun s es)) <= 1)%nat).
+Check (C07_block_told_after_protocols :
+  forall me s e, Binv me s -> In (OMgrClosed me) (snd (bstep s e)) ->
+  let s' := fst (bstep s e) in
+  busy_in me (s_ch s') = false /\
+  exists bc, find_c me (s_conns s') = Some bc /\ b_ph bc = PDone /\
+    forall p, nth p (alive (b_task bc)) false = true -> In (IClosed me) (racc_at (s_ch s') p)).
+Check (C07_block_closed_once_per_channel :
+  forall me s p, Binv me s ->
+  (cntc me (racc_at (s_ch s) p) <= 1)%nat /\
+  ((forall bc, find_c me (s_conns s) = Some bc -> is_gone (b_task bc) = false) -> cntc me (racc_at (s_ch s) p) = 0%nat)).
+Check (C07_block_parked_report_completes :
+  forall me s bc, Binv me s -> (1 <= s_cap s)%nat -> find_c me (s_conns s) = Some bc ->
+  let s1 := fst (brun s (flush s)) in
+  snd (brun s (flush s)) = [] /\
+  match b_ph bc with
+  | PWaitClosed => snd (bstep s1 (BResume me)) = [OMgrClosed me] /\
+                   ph_of me (fst (bstep s1 (BResume me))) = Some PDone
+  | PWaitEst => snd (bstep s1 (BResume me)) = [OAccepted me] /\
+                ph_of me (fst (bstep s1 (BResume me))) = Some PRun
+  | PWaitSub => ph_of me (fst (bstep s1 (BResume me))) = Some PRun
+  | _ => True
+  end).
+Check (C07_block_delivered_exactly_once :
+  forall me s bc p ch, Binv me s -> (1 <= s_cap s)%nat ->
+  find_c me (s_conns s) = Some bc -> is_gone (b_task bc) = true ->
+  nth p (alive (b_task bc)) false = true -> nth p (s_alive s) false = true ->
+  nth_error (s_ch (fst (brun s (flush s)))) p = Some ch ->
+  cntc me (rdel ch) = 1%nat).
+Check (C07_block_waits_until_drained :
+  forall me p es s, forallb (leaves_alone p) es = true -> busy_at me (s_ch s) p = true ->
+  busy_at me (s_ch (fst (brun s es))) p = true /\ cnt_out (is_mgr me) (snd (brun s es)) = 0%nat).
